@@ -437,12 +437,13 @@ theorem delegation_value (D : Deriv ℝ) (fn : Fn ℝ) (n : Name) (k : Nat) (hen
 /-- `delegation_fresh`: an entry point that returns normally leaves the analytical first-order
 derivatives of the wrapped function switched on iff the wrapper has first-order derivatives on,
 and computed at the requested point — provided they were consistent before the call (`en1 = c1`,
-i.e. the flags of the wrapper were not toggled since its last update; `Fresh1`) and the value at
-the requested point is not "too large" (in that branch the code returns with the analytical
-derivatives left switched off).  Both conclusions are again the hypotheses for the next call. -/
+i.e. the flags of the wrapper were not toggled since its last update; `Fresh1`).  This includes the
+branch where the value at the requested point is "too large" (NaN everywhere; fixed: the code used
+to return with the analytical derivatives left switched off).  Both conclusions are again the
+hypotheses for the next call. -/
 theorem delegation_fresh (f : List ℝ → ℝ) (w : W ℝ) (e : Entry ℝ) (hown : Own w.fn) (hok : w.fn.OK f) (he : e.Nodup)
     (hk : w.fn.kind ≥ 1) (hcons : w.fn.en1 = w.c1) (hfr : Fresh1 w.fn)
-    (hnb : tooBig (f (values (e.apply w.fn.params))) = false) (hret : (w.call f e).2.1 = none) :
+    (hret : (w.call f e).2.1 = none) :
     (w.call f e).1.fn.en1 = (w.call f e).1.c1 ∧ Fresh1 (w.call f e).1.fn ∧ (w.call f e).1.c1 = w.c1 := by
   obtain ⟨h0, _, _, _, _, hkeep⟩ := call_spec f w e hown hok he hret
   have hpar := forward_params f w.fn e hown he h0
@@ -460,7 +461,7 @@ theorem delegation_fresh (f : List ℝ → ℝ) (w : W ℝ) (e : Entry ℝ) (how
   rw [hl] at hret ⊢
   simp only [] at hret ⊢
   have := update_fresh f ({ w with fn := fn1 } : W ℝ) pl o1 o2 hsy hnd (by simpa [o3] using hk)
-    (by simpa using hff.2.trans hcons) hff.1 (by simpa [hpar] using hnb) hret
+    (by simpa using hff.2.trans hcons) hff.1 hret
   have hc1 : (({ w with fn := fn1 } : W ℝ).update f pl).1.c1 = w.c1 :=
     (update_spec f ({ w with fn := fn1 } : W ℝ) pl o1 o2 hsy hnd _ rfl hret).2.2.1.c1
   exact ⟨by rw [this.1, hc1], this.2, hc1⟩
@@ -470,10 +471,10 @@ hands out for a non-selected parameter of the wrapped function is the analytical
 requested point -/
 theorem delegation_end_to_end (f : List ℝ → ℝ) (D : Deriv ℝ) (w : W ℝ) (e : Entry ℝ) (hown : Own w.fn) (hok : w.fn.OK f)
     (he : e.Nodup) (hk : w.fn.kind ≥ 1) (hc1 : w.c1 = true) (hcons : w.fn.en1 = w.c1) (hfr : Fresh1 w.fn)
-    (hnb : tooBig (f (values (e.apply w.fn.params))) = false) (hret : (w.call f e).2.1 = none)
+    (hret : (w.call f e).2.1 = none)
     (n : Name) (k : Nat) (hsel : idx w.vars n = none) (hpos : posOf w.fn.params n = some k) :
     (w.call f e).1.getD1 D n = .ok (some (D.d1 k (values (e.apply w.fn.params)))) := by
-  obtain ⟨a, b, c⟩ := delegation_fresh f w e hown hok he hk hcons hfr hnb hret
+  obtain ⟨a, b, c⟩ := delegation_fresh f w e hown hok he hk hcons hfr hret
   obtain ⟨t1, _, _, _, _⟩ := transparent f w e hown hok he hret
   obtain ⟨_, _, _, _, _, hkeep⟩ := call_spec f w e hown hok he hret
   have hsel' : idx (w.call f e).1.vars n = none := by rw [hkeep.vars]; exact hsel
